@@ -444,7 +444,7 @@ class vCategory:
 
     @staticmethod
     def from_ical(ical):
-        ical = to_unicode(ical)
+        ical = to_unicode(ical, encoding=DEFAULT_ENCODING)
         # split on the commas between the items, not on the escaped commas
         # inside an item, and unescape each item afterwards
         items = ['']
